@@ -154,13 +154,19 @@ pub broadcast proof fn lemma_added_refl(e0: Seq<GraphQLError>, at: Seq<ResponseD
 { assert(e0.subrange(0, e0.len() as int) =~= e0); }
 pub broadcast proof fn lemma_added_push(e0: Seq<GraphQLError>, e1: Seq<GraphQLError>, e: GraphQLError, at: Seq<ResponseDataPathSegment>)
     requires errors_added_below(e0, e1, at), is_prefix(at, e.path@) ensures #[trigger] errors_added_below(e0, e1.push(e), at)
-{ assert(e1.push(e).subrange(0, e0.len() as int) =~= e1.subrange(0, e0.len() as int)); }
+{
+    assert(e1.push(e).subrange(0, e0.len() as int) =~= e1.subrange(0, e0.len() as int));
+    assert forall|k: int| e0.len() <= k < e1.push(e).len() implies is_prefix(at, #[trigger] e1.push(e)[k].path@) by {
+        if k < e1.len() { assert(e1.push(e)[k] == e1[k]); assert(is_prefix(at, e1[k].path@)); } else { assert(e1.push(e)[k] == e); }
+    }
+}
 pub broadcast proof fn lemma_added_trans(e0: Seq<GraphQLError>, e1: Seq<GraphQLError>, e2: Seq<GraphQLError>, at: Seq<ResponseDataPathSegment>, x: ResponseDataPathSegment)
     requires errors_added_below(e0, e1, at), #[trigger] errors_added_below(e1, e2, at.push(x)) ensures #[trigger] errors_added_below(e0, e2, at)
 {
     assert(e2.subrange(0, e0.len() as int) =~= e2.subrange(0, e1.len() as int).subrange(0, e0.len() as int));
     assert forall|k: int| e0.len() <= k < e2.len() implies is_prefix(at, #[trigger] e2[k].path@) by {
-        if k < e1.len() { assert(e2[k] == e2.subrange(0, e1.len() as int)[k]); } else { lemma_prefix_push(at, x, e2[k].path@); }
+        if k < e1.len() { assert(e2[k] == e2.subrange(0, e1.len() as int)[k]); assert(e2[k] == e1[k]); assert(is_prefix(at, e1[k].path@)); }
+        else { assert(is_prefix(at.push(x), e2[k].path@)); lemma_prefix_push(at, x, e2[k].path@); }
     }
 }
 pub broadcast proof fn lemma_added_trans_same(e0: Seq<GraphQLError>, e1: Seq<GraphQLError>, e2: Seq<GraphQLError>, at: Seq<ResponseDataPathSegment>)
@@ -168,7 +174,7 @@ pub broadcast proof fn lemma_added_trans_same(e0: Seq<GraphQLError>, e1: Seq<Gra
 {
     assert(e2.subrange(0, e0.len() as int) =~= e2.subrange(0, e1.len() as int).subrange(0, e0.len() as int));
     assert forall|k: int| e0.len() <= k < e2.len() implies is_prefix(at, #[trigger] e2[k].path@) by {
-        if k < e1.len() { assert(e2[k] == e2.subrange(0, e1.len() as int)[k]); }
+        if k < e1.len() { assert(e2[k] == e2.subrange(0, e1.len() as int)[k]); assert(e2[k] == e1[k]); assert(is_prefix(at, e1[k].path@)); }
     }
 }
 pub broadcast group paths { lemma_prefix_self, lemma_prefix_child, lemma_added_refl, lemma_added_push, lemma_added_trans, lemma_added_trans_same }
@@ -341,7 +347,6 @@ UNIT = {
                        (r"(?s)    let info = ResolveInfo \{.*?\n    \};\n", "", 1, "re"),
                        (r"(?s)let resolved_result = match field\.name\.as_str\(\) \{.*?\n    \};\n", "let resolved_result = resolve_field_opaque(ctx, object_type, object_value, fields, &argument_values);\n", 1, "re")],
              clauses=[("requires", "at_least_one_field", "fields@.len() > 0"),
-                      ("requires", "the_field_was_resolved_against_this_definition", "fields@[0].definition.0.ty == field_def.ty"),
                       ("ensures", "errors_lie_at_or_below_the_field", "errors_added_below(old(ctx).errors@, final(ctx).errors@, path_seq(path))"),
                       ("ensures", "non_null_positions_are_never_null", "non_null(field_def.ty) ==> r != Ok::<Option<JsonValue>, PropagateNull>(Some(JsonValue::Null))"),
                       ("ensures", "ExecuteField_with_null_propagation", "same_completed(r, field_outcome(path_seq(path), mode, object_type, object_value, field_def, fields@))"),
